@@ -39,6 +39,9 @@ R_rem(m)   == [k |-> "re",    n |-> "re",       a |-> 0, text |-> "re=" \o RePat
 RePat2     == "'^z+$'"
 R_re2      == [k |-> "re",    n |-> "re",       a |-> 0, text |-> "re=" \o RePat2, key |-> "re", val |-> RePat2, msg |-> "", lab |-> ""]
 
+\* a cross-field group rule (its clause is written after all per-field clauses of the call)
+R_either   == [k |-> "either", n |-> "either",  a |-> 0, text |-> "either=1", key |-> "either", val |-> "1", msg |-> "", lab |-> ""]
+
 JoinText(rs) == IF rs = <<>> THEN "" ELSE FoldLeft(LAMBDA acc, r : acc \o "," \o r.text, rs[1].text, Tail(rs))
 
 \* functions registered globally before any call starts (SetCustomerValidFn)
@@ -69,8 +72,14 @@ Types == [
   P2 |-> [name |-> "", fields |-> <<
             F("X", "int", "", <<R_req>>, <<R_le(2)>>, <<R_fn("p_t6")>>),
             F("N", "ptr", "T3", <<R_req>>, <<R_exist>>, <<>>),
-            F("L", "slice", "T3", <<>>, <<R_exist>>, <<R_req>>) >>] ]
-TypeIds == <<"T1", "T2", "T3", "P1", "P2">>
+            F("L", "slice", "T3", <<>>, <<R_exist>>, <<R_req>>) >>],
+  \* an either group (E1, E2) next to a required field: a call whose group is violated writes its clause through a
+  \* second (scratch) builder taken from the same pool as the error buffers
+  T4 |-> [name |-> "PoolsT4", fields |-> <<
+            F("E1", "int", "", <<R_either>>, <<>>, <<>>),
+            F("E2", "int", "", <<R_either>>, <<>>, <<>>),
+            F("A", "int", "", <<R_req>>, <<>>, <<>>) >>] ]
+TypeIds == <<"T1", "T2", "T3", "P1", "P2", "T4">>
 RootTypes == <<"T1", "T2", "P1", "P2">>
 ShapeA(T) == T \in {"T1", "P1"}
 
@@ -98,7 +107,8 @@ ValsA(T) == << St(T, <<I(0), I(3), Szz>>), St(T, <<I(7), I(0), Sab>>), St(T, <<I
 ValsB(T) == << St(T, <<I(3), Ptr("T3", <<I(7), Se>>), Sl("T3", <<St("T3", <<I(3), Sab>>)>>)>>),
                St(T, <<I(0), NilPtr("T3"), Sl("T3", <<>>)>>),
                St(T, <<I(1), Ptr("T3", <<I(2), Sab>>), Sl("T3", <<St("T3", <<I(0), Se>>), St("T3", <<I(7), Szz>>)>>)>>) >>
-ValsOf(T) == IF ShapeA(T) THEN ValsA(T) ELSE ValsB(T)
+ValsC(T) == << St(T, <<I(0), I(0), I(0)>>), St(T, <<I(0), I(5), I(0)>>), St(T, <<I(3), I(0), I(2)>>) >>
+ValsOf(T) == IF T = "T4" THEN ValsC(T) ELSE IF ShapeA(T) THEN ValsA(T) ELSE ValsB(T)
 
 ----------------------------------------------------------------------------
 (* Rule maps are sequences of [f, rs]; typed rule sets sequences of [T, rm]*)
@@ -142,7 +152,9 @@ Menu12 == <<
   DUrl("m10", <<E("u1", Szz), E("u2", Se), E("u3", Sab)>>,
        <<RME("u1", <<R_re, R_fn("p_t3")>>), RME("u2", <<R_reqm("u2 must be given")>>), RME("u3", <<R_fn("g_2")>>)>>, <<>>),
   DSplit("m11", <<R_req, R_re, R_fn("p_t4")>>),
-  DParse("m12", R_rem("only a or b")) >>
+  DParse("m12", R_rem("only a or b")),
+  DStruct("m13", "T4", "valid", ValsC("T4")[1], <<>>, <<>>, <<>>),      \* either group violated and A missing: two clauses
+  DStruct("m14", "T4", "valid", ValsC("T4")[2], <<>>, <<>>, <<>>) >>    \* group satisfied, A missing: one clause
 
 (* the product family used by the concurrent streams *)
 NT == Len(RootTypes)
@@ -225,6 +237,7 @@ EvRule(cfg, obj, fname, depth, fv, r) ==
          IF Zero(fv) THEN <<Cl(VPath(obj, fname), IF r.msg = "" THEN "required" ELSE "custom", r.msg, "")>>
          ELSE Desc(cfg, obj, fname, depth, fv)
     [] r.k = "exist" -> IF Zero(fv) THEN <<>> ELSE Desc(cfg, obj, fname, depth, fv)
+    [] r.k = "either" -> <<>>                       \* member registered; judged at the end of the call (EvGroups)
     [] r.k = "ge" -> IF Zero(fv) \/ fv.n >= r.a THEN <<>> ELSE <<Cl(VPath(obj, fname), "lt", ToString(r.a), EchoOf(fv))>>
     [] r.k = "le" -> IF Zero(fv) \/ fv.n <= r.a THEN <<>> ELSE <<Cl(VPath(obj, fname), "gt", ToString(r.a), EchoOf(fv))>>
     [] r.k = "re" -> IF Zero(fv) \/ (IF r.val = RePat2 THEN fv.s = "zz" ELSE fv.re) THEN <<>>
@@ -235,9 +248,16 @@ EvObj(cfg, T, obj, depth, v) ==
   LET fsT == Types[T].fields IN
   FlattenSeq([i \in 1..Len(fsT) |-> EvRules(cfg, obj, fsT[i].name, depth, v.fs[i], EffRules(cfg, T, fsT[i], depth))])
 
+\* the one group of the menu: T4.E1 / T4.E2 under tag "valid"; violated iff both are empty; its clause comes last and
+\* has no `input` part - the harness files it under class "other" with the text after the first quoted path
+EvGroups(cfg, T, v) ==
+  IF T = "T4" /\ cfg.tag = "valid" /\ TypedGet(cfg.typed, T) = <<>> /\ cfg.unscoped = <<>> /\ Zero(v.fs[1]) /\ Zero(v.fs[2])
+  THEN <<Cl("PoolsT4.E1", "other", ", \"PoolsT4.E2\" explain: they shouldn't all be empty", "")>>
+  ELSE <<>>
+
 MapField(k) == "map[" \o k \o "]"
 Eval(d, cfg) ==
-  CASE d.car = "struct" -> EvObj(cfg, d.T, Types[d.T].name, 0, d.val)
+  CASE d.car = "struct" -> EvObj(cfg, d.T, Types[d.T].name, 0, d.val) \o EvGroups(cfg, d.T, d.val)
     [] d.car = "var"    -> EvRules(cfg, "", "", 0, d.val, RMGet(cfg.unscoped, "validVar"))
     [] d.car = "map"    -> FlattenSeq([i \in 1..Len(d.entries) |->
                               EvRules(cfg, "", MapField(d.entries[i].k), 0, d.entries[i].v, RMGet(cfg.unscoped, d.entries[i].k))])
